@@ -64,6 +64,16 @@ pub fn events_json(ev: &[(u8, [i64; 8])]) -> Vec<Value> {
             4 => json!({"side": "L", "op": "limit", "B": f[0], "n": f[1], "limit": f[2], "pos": f[3]}),
             5 => json!({"side": "L", "op": "reset", "B": f[0]}),
             6 => json!({"side": "L", "op": "unc", "B": f[0], "n": f[1], "copied": f[2], "pos": f[3], "full": f[4]}),
+            7 => {
+                let (low, range) = (f[3] as u64, f[4] as u64);
+                json!({"side": "RE", "p": f[0], "q": f[1], "b": f[2], "l": [(low >> 32) & 0xFFFF, (low >> 16) & 0xFFFF, low & 0xFFFF],
+                       "r": [(range >> 16) & 0xFFFF, range & 0xFFFF], "c": f[5], "cs": f[6], "n": f[7]})
+            }
+            8 => {
+                let (code, range) = (f[3] as u64, f[4] as u64);
+                json!({"side": "RD", "p": f[0], "q": f[1], "b": f[2], "c": [(code >> 16) & 0xFFFF, code & 0xFFFF],
+                       "r": [(range >> 16) & 0xFFFF, range & 0xFFFF], "n": f[5]})
+            }
             _ => Value::Null, // events of other groups' hooks
         })
         .filter(|v| !v.is_null())
@@ -126,6 +136,9 @@ fn roundtrip(j: &Value) -> Value {
     verif_trace::reset_counters();
     if want_events {
         verif_trace::enable();
+        if b(j, "bits", false) {
+            verif_trace::set_level(2);
+        }
     }
     let enc = catch_unwind(AssertUnwindSafe(|| -> std::io::Result<Vec<u8>> {
         match fmt {
